@@ -38,7 +38,8 @@ pub fn now_override() -> Option<chrono::DateTime<chrono::Local>> {
 }
 
 /// Install (or remove) a callback invoked before every filesystem step of a fixed-window
-/// rotation: `i` for the shift `i -> i+1`, `u32::MAX` for the final move/compress. An `Err`
+/// rotation: `i` for the shift `i -> i+1`, `u32::MAX` for the final move/compress, `u32::MAX - 1`
+/// between a compressing copy and the removal of its source. An `Err`
 /// makes that step fail (fault injection); the callback may also snapshot the directory.
 pub fn set_rotate_point(f: Option<RotateFn>) {
     *ROTATE.write().unwrap() = f;
